@@ -67,7 +67,7 @@ def _names_in(obj, depth=0):
     slots = []
     for klass in type(obj).__mro__:
         slots += list(getattr(klass, "__slots__", ()))
-    for k in slots + list(getattr(obj, "__dict__", {})):
+    for k in dict.fromkeys(slots + list(getattr(obj, "__dict__", {}))):  # a slot name can recur along the MRO
         if k in ("rdclass", "rdtype", "rdcomment"):
             continue
         try:
@@ -212,6 +212,7 @@ def run_grammar(case):
                 raise Violation("origin", f"{tname}: {want_rel} of the embedded names {emitted!r} lie at or below the origin {case['origin']!r} but from_wire(origin=) holds {got_rel} relative names: {held!r}", "origin-relativity:" + tname)
             if len(held) == len(emitted) and want_rel:
                 classes.append("relativity-checked")
+                classes.append("relativity-checked:" + tname)
     nontrivial = len(w) >= 1 and bool(flags & {"boundary", "name>=2"})
     return {"nontrivial": nontrivial, "classes": classes}
 
@@ -221,7 +222,7 @@ def grammar_cases(draw, types):
     tname = R.type_choice(draw, types)
     origin = None
     ctx = {}
-    if draw(st.integers(0, 2)) == 0:
+    if draw(st.integers(0, 2)) == 0 or (tname in R.NAME_TYPES and draw(st.booleans())):
         origin = draw(G.abs_name(max_wire=30))
         ctx["origin"] = origin
     if draw(st.booleans()):
@@ -341,6 +342,7 @@ def arbitrary_cases(draw):
 def parts(tier):
     per_type = {"quick": 40, "thorough": 400}[tier]
     req = {("acc:" + t): per_type for t in R.ALL_TYPES}
+    req.update({("relativity-checked:" + t): 5 for t in R.NAME_TYPES if t not in ("TSIG", "TKEY", "CH_A") and t in R.GRAMMARS})
     req.update({"with-origin": 100, "relativized-names": 20, "relativity-checked": 200, "other-class-first": 1000, "normalizing": 20})
     n_types = len(R.ALL_TYPES)
     return [
